@@ -163,6 +163,24 @@ class Super:
             for s in ss:
                 self.pred.setdefault(s, set()).add(k)
 
+    def keep_only(self, node_key, succ_keys):
+        """restrict the successors of a node (used to prune switches on statically known
+        values); unreachable nodes are removed afterwards by prune_unreachable()"""
+        self.succ[node_key] = set(succ_keys) & self.succ.get(node_key, set())
+
+    def prune_unreachable(self):
+        live = self.reach([self.start()])
+        for k in list(self.nodes):
+            if k not in live:
+                del self.nodes[k]
+                self.succ.pop(k, None)
+        for k in self.succ:
+            self.succ[k] = {x for x in self.succ[k] if x in live}
+        self.pred = {}
+        for k, ss in self.succ.items():
+            for x in ss:
+                self.pred.setdefault(x, set()).add(k)
+
     # ---- queries -----------------------------------------------------------------------------
     def start(self):
         return ((), self.root.path, 0)
